@@ -149,7 +149,7 @@ def check_convert(r, d):
     if [n for n, _ in names_types(ir0)] != want_names:
         r.fail("param-names", "parse(original) gives %s, text documents %s" % ([n for n, _ in names_types(ir0)], want_names))
     # pipeline B: the docstring inside a def at the generated indentation, through function.parse (carries original_doc_str)
-    variants = [("direct", None)]
+    variants = [("direct", None), ("plain", None)]  # plain = no original_doc_str: the header comes from ir["doc"]
     if d["indent"] in (4, 8) and not d["lead_nl"]:
         variants.append(("function", d["indent"]))
     for target in ("rest", "google", "numpydoc"):
@@ -160,6 +160,10 @@ def check_convert(r, d):
                     if how == "direct":
                         ir = deepcopy(ir0)
                         ir["_internal"] = {"original_doc_str": orig}
+                        out = cdd.docstring.emit.docstring(ir, docstring_format=target, indent_level=0)
+                    elif how == "plain":
+                        ir = deepcopy(ir0)
+                        ir.pop("_internal", None)
                         out = cdd.docstring.emit.docstring(ir, docstring_format=target, indent_level=0)
                     else:
                         pad = " " * (ind - 4)
